@@ -6,7 +6,8 @@ model  = PV.Model.Dobs (op "dobs"): the per-replica table with `0` meaning "not 
 oracle = the statement: every observable of the list comes back with its central value, chains,
          configuration numbers, per-configuration samples and covariance gradients (this file)
 
-Known finding (format-inherent): a sample whose written number delta + (r - value) is exactly 0 is
+Known findings (format-inherent): pobs holds no central value (derived observables on >= 2 replicas come back with the
+weighted mean of the replica means); dobs: a sample whose written number delta + (r - value) is exactly 0 is
 indistinguishable from "not measured" and is dropped on import.
 """
 import json
@@ -14,12 +15,13 @@ import os
 import shutil
 import tempfile
 import warnings
-from pe_util import np, pe, gen_idl, gen_data, close, quiet
+from pe_util import np, pe, gen_idl, gen_data, close, quiet, dump_obs
 import pyerrors.input.dobs as dio
 
 RULE = ('lists of 1-4 observables on 1-2 ensembles x 1-3 replicas, each on its own subset of the configurations and replicas; '
         'range / strided / irregular idl; covariance inputs of dimension 1-3 incl. exactly cancelling gradients; real-valued and '
-        'count-like data (zeros, samples equal to the mean); gz on/off; separator_insertion True / int / str; pobs on common layouts. '
+        'count-like data (zeros, samples equal to the mean); gz on/off; separator_insertion True / int / str; pobs: lists of primary observables, of derived observables (non-linear functions), and lists '
+        'with one member on other configurations / chains (must be refused), separator positions 0 / 1 / 2. '
         'non-trivial = distinct case.')
 TRUSTED = ['lxml / gzip containers', "'%1.16e' / '%1.14e' text conversion of doubles (covariances carry 15 digits)"]
 ASSUMPTIONS = ['samples compared at 1e-13 of the data scale, covariance matrices and gradients at 1e-13 (15 printed digits)']
@@ -80,6 +82,181 @@ def build_list(case):
                 o = o + sum(0.1 * (i + 1) * (k + 1) * c for k, c in enumerate(cov))
         obs.append(o)
     return obs
+
+
+def build_pobs(case):
+    """pobs lists: observables of ONE ensemble.  kind = primary (straight from samples), derived (non-linear functions
+    of primaries: the central value is not the weighted mean of the replica means), mixed (one observable on other
+    configurations / other chains than the first: cannot be stored in one table, must be refused)"""
+    rng = __import__('random').Random(case['seed'])
+    nprng = np.random.default_rng(case['seed'])
+    e = case['ens'][0]
+    layout = {'%s|r%d' % (e, r + 1): list(gen_idl(rng, rng.randint(6, 14), rng.choice(['contig', 'strided', 'irregular']))) for r in range(case['nrep'][e])}
+    names = sorted(layout)
+    prim = []
+    for i in range(case['n']):
+        if case['data'] == 'count':
+            samples = [nprng.integers(0, 3, size=len(layout[n])).astype(float) for n in names]
+        else:
+            samples = [gen_data(rng, nprng, len(layout[n]), 'white') * rng.choice([1.0, 1e-3, 40.0]) + rng.choice([1.3, -0.7, 0.0, 250.0]) + 0.2 * k for k, n in enumerate(names)]
+        prim.append(pe.Obs(samples, names, idl=[layout[n] for n in names]))
+    kind = case.get('pobs_kind', 'primary')
+    obs = list(prim)
+    if kind == 'derived':
+        for i in range(len(obs)):
+            f = rng.choice(['sq', 'exp', 'prod', 'lin'])
+            a, b = prim[i], prim[rng.randrange(len(prim))]
+            obs[i] = {'sq': lambda: a * a, 'exp': lambda: np.exp(0.3 * a), 'prod': lambda: a * b + 1.0, 'lin': lambda: 2.0 * a - 0.5 * b}[f]()
+    elif kind == 'mixed' and len(obs) > 1:
+        j = rng.randrange(1, len(obs))
+        how = rng.choice(['stride', 'shorter', 'longer', 'shift', 'chain', 'one_differs'])
+        n0 = names[-1]
+        il = list(layout[n0])
+        alt = {'stride': [il[0] + 2 * (c - il[0]) for c in il], 'shorter': il[:-1] if len(il) > 5 else il + [il[-1] + 1], 'longer': il + [il[-1] + 1, il[-1] + 3],
+               'shift': [c + 1 for c in il], 'chain': il, 'one_differs': il[:-1] + [il[-1] + 2]}[how]
+        nn = list(names)
+        if how == 'chain':
+            nn[-1] = '%s|r%d' % (e, len(names) + 1)
+        ils = [layout[n] for n in names[:-1]] + [alt]
+        obs[j] = pe.Obs([gen_data(rng, nprng, len(x), 'white') + 0.4 for x in ils], nn, idl=ils)
+    return obs
+
+
+def pobs_blocks_of_string(s):
+    """the replica blocks of a pobs XML string, read independently of pyerrors: id, layout numbers, rows of tokens"""
+    import xml.etree.ElementTree as et
+    root = et.fromstring(s)
+    out = []
+    for arr in root.find('pobs').findall('array'):
+        kids = list(arr)
+        lay = arr.find('layout').text.split()
+        txt = kids[-1].tail
+        rows = [ln.split() for ln in txt.strip().split('\n') if ln.strip()]
+        out.append({'id': arr.find('id').text.strip(), 'nc': int(lay[0]), 'na': int(lay[2].lstrip('f')), 'rows': rows})
+    return out
+
+
+def check_pobs(ctx, case, probs):
+    obs = build_pobs(case)
+    kind = case.get('pobs_kind', 'primary')
+    k = case.get('sep_k', 1)
+    wkw = {}
+    if case.get('meta'):
+        wkw = {'spec': 'x', 'origin': 'somewhere', 'symbol': ['sym%d' % i for i in range(len(obs))], 'enstag': 'tg'}
+    ctx.count('pobs:' + kind)
+    d = tempfile.mkdtemp(prefix='c12_', dir='/dev/shm' if os.path.isdir('/dev/shm') else None)
+    try:
+        same = all(sorted(o.names) == sorted(obs[0].names) and all(list(o.idl[n]) == list(obs[0].idl[n]) for n in o.names) for o in obs)
+        raised = None
+        try:
+            s = dio.create_pobs_string(obs, 'nm', **wkw)
+            dio.write_pobs(obs, os.path.join(d, 'f'), 'nm', gz=case['gz'], **wkw)
+        except Exception as e:
+            raised = e
+        # the model
+        mr = None
+        if ctx.lean is not None:
+            mr = ctx.lean.call({'op': 'pobs', 'obs': [dump_obs(o) for o in obs], 'k': k})
+            if '_err' in mr:
+                probs.append(('disagree', 'lean-driver-error', mr['_err']))
+                mr = None
+        if not same:
+            # one table per replica with ONE configuration column: observables on other configurations cannot be stored
+            if raised is None:
+                probs.append(('violation', 'pobs-accepts-different-configuration-lists', 'lists %r written under the numbers of the first observable' % ([{n: list(o.idl[n])[:4] for n in o.names} for o in obs],)))
+            if mr is not None and 'exc' not in mr:
+                probs.append(('disagree', 'pobs-model-refusal', 'model accepts a list the format cannot hold'))
+            return
+        if raised is not None:
+            probs.append(('violation', 'roundtrip-exception:pobs', '%s: %s' % (type(raised).__name__, str(raised)[:200])))
+            return
+        if mr is not None and 'exc' in mr:
+            probs.append(('disagree', 'pobs-model-refusal', 'model refuses (%s) what the implementation writes' % mr['exc']))
+            mr = None
+        # written blocks: model tokens = file tokens, number for number
+        if mr is not None:
+            from lean import b2f
+            fb = pobs_blocks_of_string(s)
+            if len(fb) != len(mr['blocks']):
+                probs.append(('disagree', 'pobs-model-blocks', '%d blocks in the file, %d in the model' % (len(fb), len(mr['blocks']))))
+            for a, b in zip(fb, mr['blocks']):
+                cfg = [int(r[0]) for r in a['rows']]
+                num = [float(x) for r in a['rows'] for x in r[1:]]
+                kinds = ''.join('c' + 'n' * (len(r) - 1) for r in a['rows'])
+                mnum = [b2f(x) for x in b['num']]
+                if (a['id'], a['nc'], a['na'], cfg, kinds) != (b['id'], b['nc'], b['na'], b['cfg'], b['kinds']) or num != mnum:
+                    probs.append(('disagree', 'pobs-model-blocks', 'block %s: file (nc %d na %d cfg %r num %r) vs model (nc %d na %d cfg %r num %r)' % (
+                        a['id'], a['nc'], a['na'], cfg[:4], num[:4], b['nc'], b['na'], b['cfg'][:4], mnum[:4])))
+                    break
+            ctx.count('pobs-model:blocks')
+        got = dio.read_pobs(os.path.join(d, 'f'), gz=case['gz'], separator_insertion=k, **({'full_output': True} if case.get('meta') else {}))
+        if case.get('meta'):
+            got = got['obsdata']
+        # the statement
+        stored = {n: n.replace('|', '') for n in obs[0].names}
+        ren = {n: stored[n][:k] + '|' + stored[n][k:] for n in stored}
+        if any(ren[n] != n for n in ren):
+            # documented: the separator goes where separator_insertion says
+            for a, b in zip(obs, got):
+                if sorted(ren.values()) != sorted(b.names):
+                    probs.append(('violation', 'separator-treatment', 'pobs k=%d: chains %r, documented %r' % (k, b.names, sorted(ren.values()))))
+                    return
+                for n in a.names:
+                    if list(a.idl[n]) != list(b.idl[ren[n]]) or np.max(np.abs((a.deltas[n] + a.r_values[n]) - (b.deltas[ren[n]] + b.r_values[ren[n]]))) > 1e-13 * max(1.0, np.max(np.abs(a.deltas[n] + a.r_values[n]))):
+                        probs.append(('violation', 'separator-treatment-data', 'pobs chain %s -> %s' % (n, ren[n])))
+                        return
+            return
+        diffs, _ = compare(obs, got, 'pobs', drops_allowed=False)
+        vd = [x for x in diffs if ': value ' in x]
+        if diffs and len(vd) == len(diffs) and kind == 'derived':
+            # the file holds no central value: the reader can only return the weighted mean of the replica means
+            ok = all(close(float(b.value), float(sum(len(a.idl[n]) * a.r_values[n] for n in a.names) / a.N), rtol=1e-13, scale=max(1.0, abs(float(a.value)))) for a, b in zip(obs, got))
+            if ok:
+                probs.append(('violation', 'pobs-central-value-of-derived-observable', diffs[:2]))
+            else:
+                probs.append(('violation', 'roundtrip:pobs', diffs[:4]))
+        elif diffs:
+            probs.append(('violation', 'roundtrip:pobs', diffs[:4]))
+        elif case.get('analyse'):
+            for a, b in zip(obs, got):
+                try:
+                    a.gamma_method()
+                    b.gamma_method()
+                except Exception:
+                    continue
+                if not close(a.dvalue, b.dvalue, rtol=1e-10):
+                    probs.append(('violation', 'analysis-differs-after-roundtrip', '%r vs %r' % (a.dvalue, b.dvalue)))
+                    break
+        # reader model against the implementation
+        if mr is not None:
+            from lean import b2f
+            if 'rexc' in mr:
+                probs.append(('disagree', 'pobs-model-read', 'model reader refuses: %s' % mr['rexc']))
+            else:
+                for i, (mo, go) in enumerate(zip(mr['obs'], got)):
+                    w = dump_obs(go)
+                    sc = max([1.0, abs(float(go.value))] + [abs(float(x) + float(go.r_values[n])) for n in go.names for x in go.deltas[n]])
+                    d_ = None
+                    if [rp['name'] for rp in mo['reps']] != [rp['name'] for rp in w['reps']]:
+                        d_ = 'chain names %r vs %r' % ([rp['name'] for rp in mo['reps']], [rp['name'] for rp in w['reps']])
+                    elif [rp['idl'] for rp in mo['reps']] != [rp['idl'] for rp in w['reps']]:
+                        d_ = 'configuration lists %r vs %r' % ([rp['idl'] for rp in mo['reps']], [rp['idl'] for rp in w['reps']])
+                    elif not close(b2f(mo['value']), b2f(w['value']), rtol=1e-13, scale=sc):
+                        d_ = 'value %r vs %r' % (b2f(mo['value']), b2f(w['value']))
+                    else:
+                        for a, b in zip(mo['reps'], w['reps']):
+                            if len(a['deltas']) != len(b['deltas']) or not all(close(b2f(p_), b2f(q_), rtol=1e-13, scale=sc) for p_, q_ in zip(a['deltas'], b['deltas'])) \
+                                    or not close(b2f(a['rvalue']), b2f(b['rvalue']), rtol=1e-13, scale=sc):
+                                d_ = 'fluctuations / replica mean of %s' % a['name']
+                                break
+                    if d_:
+                        probs.append(('disagree', 'pobs-model-read', 'observable %d: %s' % (i, d_)))
+                        break
+                if len(mr['obs']) != len(got):
+                    probs.append(('disagree', 'pobs-model-read', '%d observables vs %d' % (len(mr['obs']), len(got))))
+                ctx.count('pobs-model:read')
+    finally:
+        shutil.rmtree(d, ignore_errors=True)
 
 
 def table(o):
@@ -148,6 +325,11 @@ def compare(orig, got, what, drops_allowed):
 
 def check_case(ctx, case):
     probs = []
+    if case['fmt'] == 'pobs' and 'pobs_kind' in case:
+        with warnings.catch_warnings(), quiet():
+            warnings.simplefilter('ignore')
+            check_pobs(ctx, case, probs)
+        return probs
     obs = build_list(case)
     d = tempfile.mkdtemp(prefix='c12_', dir='/dev/shm' if os.path.isdir('/dev/shm') else None)
     try:
@@ -291,6 +473,11 @@ def gen_case(ctx):
         if rng.random() < 0.2 and any(v > 1 for v in case['nrep'].values()):
             case['frozen'] = rng.choice([0.0, 1.0, 2.0, -1.0])
     case['meta'] = rng.choice([None, None, 'plain', 'enstags'])
+    if fmt == 'pobs':
+        case['pobs_kind'] = rng.choice(['primary', 'primary', 'derived', 'mixed'])
+        case['sep_k'] = rng.choice([1, 1, 1, 2, 0])
+        if case['pobs_kind'] == 'mixed':
+            case['n'] = rng.randint(2, 4)
     return case
 
 
@@ -310,5 +497,5 @@ def run(ctx):
         ctx.case(case)
         for (kind, key, info) in check_case(ctx, case):
             (ctx.violation if kind == 'violation' else ctx.disagree)(key, {'case': case, 'info': info})
-        if len([v for v in ctx.violations if v[0] != 'dobs-drops-sample-equal-to-central-value']) + len(ctx.disagreements) > 25:
+        if len([v for v in ctx.violations if v[0] not in ('dobs-drops-sample-equal-to-central-value', 'pobs-central-value-of-derived-observable')]) + len(ctx.disagreements) > 25:
             break
